@@ -297,6 +297,16 @@ def helper_checks(ctx):
         ("r.zz in Type.string", False), ("r.zz == Type.string", False), ("Type.varint < r.zz", False), ("r.zz >= Type.varint", False),
         ("Type.string.zz == 'a'", False), ("Type.uri.filename in r.zz", False), ("'abc' in Type.string", True),
         ("r.zz in Type.string or r.s == 'abc'", True),
+        # a WANTED string that is a field the record lacks matches nothing (and does not raise)
+        ("field_equals(r, ['s'], [r.zz])", False), ("field_equals(r, ['s'], ['abc', r.zz])", True),
+        ("field_equals(r, ['s'], [r.zz], nocase=False)", False), ("field_contains(r, ['s'], [r.zz])", False),
+        ("field_contains(r, ['s'], ['b', r.zz])", True), ("field_contains(r, ['s'], [r.zz], word_boundary=True)", False),
+        ("field_equals(r, ['zz', 's'], [r.yy, r.zz])", False),
+        # a missing field read inside a generator expression, and missing fields named like Python builtins
+        ("any(r.zz == p for p in (80, 443))", False), ("r.s == 'abc' and any(r.zz >= lo for lo in (1,))", False),
+        ("all(r.zz != p for p in (1, 2))", False), ("any(p == r.zz for p in r.lst)", False),
+        ("r.id == 7", False), ("r.type in (1, 2)", False), ("r.len < 3 or r.s == 'abc'", True), ("r.str == 'x' or r.print != 1", False),
+        ("any(r.hash == c for c in r.s)", False),
         # reserved fields are fields every record has: never skipped
         ("field_contains(r, ['_source'], ['hostB/'])", True), ("field_equals(r, ['zz', '_source'], ['HOSTB/X'])", True),
         ("field_regex(r, ['_source', 'zz'], '^host')", True), ("field_equals(r, ['_version'], [1], nocase=False)", True),
